@@ -21,6 +21,8 @@ def alphabet(kind, attr, K, A):
         ops += [["getkey", k], ["setkey", k, "y"], ["setkey", k, ""], ["contains", k]]
     for k in (K, A, U):
         ops.append(["delkey", k])
+    # the rest of the OrderedDict interface (outside the property's own alphabet; the model covers it as VOpX)
+    ops += [["clear"], ["setdefault", K, "z"], ["setdefault", U, "z"], ["move_to_end", K, True], ["move_to_end", U, False]]
     if kind == "SMChart":
         ops += [["pop", K], ["popitem"], ["update", "FOO", "1"], ["update", K, "1"], ["setattr", "meter", "9"], ["getkey", "METER"]]
     return ops
@@ -52,6 +54,9 @@ def apply_impl(obj, op):
         if t == "popitem":
             k, v = obj.popitem(); return ["items", [[k, v]]]
         if t == "update": obj.update({op[1]: op[2]}); return ["done"]
+        if t == "clear": obj.clear(); return ["done"]
+        if t == "setdefault": return ["value", obj.setdefault(op[1], op[2])]
+        if t == "move_to_end": obj.move_to_end(op[1], last=op[2]); return ["done"]
     except KeyError: return ["KeyError"]
     except NotImplementedError: return ["NotImplementedError"]
     except AttributeError: return ["AttributeError"]
@@ -88,7 +93,16 @@ def ref_step(kind, d, op, table):
         del d[op[1]]; return ["done"]
     if t == "contains": return ["bool", op[1] in d]
     if t == "items": return ["items", [[k, v] for k, v in d.items()]]
-    if sm and t in ("pop", "popitem", "update"): return ["NotImplementedError"]
+    if sm and t in ("pop", "popitem", "update", "clear"): return ["NotImplementedError"]
+    if t == "clear": d.clear(); return ["done"]
+    if t == "setdefault":
+        if op[1] in d:
+            return (["value", d.get(op[1])] if op[1] in SIX else ["KeyError"]) if sm else ["value", d[op[1]]]
+        if sm and op[1] not in SIX: return ["KeyError"]
+        d[op[1]] = op[2]; return ["value", op[2]]
+    if t == "move_to_end":
+        if op[1] not in d: return ["KeyError"]
+        d.move_to_end(op[1], last=op[2]); return ["done"]
     if t == "pop": return ["value", d.pop(op[1], None)]
     if t == "popitem":
         if not d: return ["KeyError"]
@@ -130,7 +144,8 @@ def run(ctx):
             a = rng.choice(attrs); Kk, Aa = table[a]
             k = rng.choice([Kk, Kk, Aa or Kk, "FOO", Kk.lower()])
             seq.append(rng.choice([["getattr", a], ["setattr", a, rng.choice(["v", ""])], ["delattr", a], ["getkey", k], ["setkey", k, rng.choice(["w", ""])],
-                                   ["delkey", k], ["contains", k], ["items"], ["pop", k], ["update", k, "u"]]))
+                                   ["delkey", k], ["contains", k], ["items"], ["pop", k], ["update", k, "u"],
+                                   ["setdefault", k, "s"], ["move_to_end", k, rng.random() < .5]] + ([["clear"]] if rng.random() < .1 else [])))
         histories.append((kind, cls, "blank-random", "blankobj", seq))
     # re-insertion histories: every known property of a blank simfile is deleted and set again (it then comes last in the
     # mapping, and serialization follows the mapping's order), also an unrelated key that another format knows
@@ -151,24 +166,32 @@ def run(ctx):
         else:
             obj = cls()
             for k, v in init: obj[k] = v
-        start = [[k, v] for k, v in dict.items(obj)]
+        start = [[k, dict.__getitem__(obj, k)] for k in OrderedDict.__iter__(obj)]
         table = attr_table(cls)
         ref = OrderedDict((k, v) for k, v in start)
         outs, refouts = [], []
         for op in seq:
             outs.append(apply_impl(obj, op))
             refouts.append(ref_step(kind, ref, op, table))
-        final = [[k, v] for k, v in dict.items(obj)]
+        final = [[k, dict.__getitem__(obj, k)] for k in OrderedDict.__iter__(obj)]
         case = {"kind": kind, "init": start if len(start) < 8 else iname, "ops": seq if len(seq) <= 12 else seq[:12] + ["…%d more" % (len(seq) - 12)]}
-        res.case(case, nontrivial=any(o[0] in ("setattr", "setkey", "delattr", "delkey", "pop", "popitem", "update") for o in seq))
+        res.case(case, nontrivial=any(o[0] in ("setattr", "setkey", "delattr", "delkey", "pop", "popitem", "update", "clear", "setdefault", "move_to_end") for o in seq))
         res.traces += 1; res.count("kind_" + kind)
         if outs != refouts or final != [[k, v] for k, v in ref.items()]:
             i = next((i for i, (a, b) in enumerate(zip(outs, refouts)) if a != b), None)
             res.violation(dict(case, ops=seq[:(i + 1) if i is not None else len(seq)][-12:]), "attribute/key views disagree with the dictionary model",
                           step=i, impl=str(outs[i] if i is not None else final)[:300], expected=str(refouts[i] if i is not None else list(ref.items()))[:300])
             continue
-        if kind == "SMChart" and iname != "empty" and [k for k, _ in final] != SIX:
+        moved = any(o[0] == "move_to_end" for o in seq)      # move_to_end reorders the mapping (it removes and adds nothing)
+        if kind == "SMChart" and iname != "empty" and ((sorted(k for k, _ in final) != sorted(SIX)) if moved else ([k for k, _ in final] != SIX)):
             res.violation(case, "SM chart no longer exposes exactly its six fields", impl=[k for k, _ in final]); continue
+        if kind == "SMChart" and iname != "empty" and all(isinstance(v, str) and not any(ch in v for ch in ":;\\/#") for _, v in final):
+            # the serialized chart shows the six fields in the documented order, whatever the order of the mapping
+            fd = dict((k, v) for k, v in final)
+            exp = "#NOTES:" + "".join("\n     %s:" % fd[k] for k in SIX[:5]) + "\n%s\n;" % fd["NOTES"]
+            res.count("smchart_serialization_checked")
+            if str(obj) != exp:
+                res.violation(case, "the serialized SM chart does not show the six fields in the documented order", impl=str(obj)[:200], expected=exp[:200]); continue
         # equality and serialization see exactly the mapping's content
         if kind != "SMChart" and hasattr(cls, "blank") and len(seq) <= 3 and kind.endswith("Simfile"):
             other = cls()
